@@ -550,7 +550,8 @@ impl<P: ParallelVariant> Rans64Decoder<P> {
 
         let mut state = Rans64State::from_state(initial_state);
         let mut pos = data_len - 8;
-        let mut result = Vec::with_capacity(output_length);
+        // output_length is caller / header supplied: reserve no more than a bounded first chunk
+        let mut result = Vec::with_capacity(output_length.min(1 << 20));
 
         for _ in 0..output_length {
             let symbol = self.decode_symbol(&mut state, encoded_data, &mut pos)?;
@@ -609,7 +610,12 @@ impl<P: ParallelVariant> Rans64Decoder<P> {
         }
         
         // Decode each stream independently in interleaved fashion
-        let mut result = vec![0u8; output_length];
+        // output_length is caller / header supplied: an allocation failure is an error, not an abort
+        let mut result: Vec<u8> = Vec::new();
+        result
+            .try_reserve_exact(output_length)
+            .map_err(|_| ZiporaError::out_of_memory(output_length))?;
+        result.resize(output_length, 0);
         let mut stream_positions = vec![0usize; n_streams];
         
         // Initialize stream positions at the end of each stream's data (read backwards)
@@ -617,19 +623,13 @@ impl<P: ParallelVariant> Rans64Decoder<P> {
             stream_positions[i] = stream_data[i].len();
         }
         
-        // Build indices for each stream (same interleaved assignment as encoding)
-        let mut stream_indices = vec![Vec::new(); n_streams];
-        for i in 0..output_length {
-            let stream_idx = i % n_streams;
-            stream_indices[stream_idx].push(i);
-        }
-        
-        // Decode each stream's symbols (in forward order since we encoded in reverse)
+        // Decode each stream's symbols (in forward order since we encoded in reverse).
+        // Stream i owns the output positions i, i + n, i + 2n, ... (same interleaved assignment as
+        // encoding); they are enumerated instead of materialised (8 bytes per output byte before).
         for stream_idx in 0..n_streams {
-            let indices = &stream_indices[stream_idx];
             let mut stream_pos = stream_positions[stream_idx];
             
-            for &output_idx in indices {
+            for output_idx in (stream_idx..output_length).step_by(n_streams) {
                 let symbol = self.decode_symbol(
                     &mut states[stream_idx], 
                     stream_data[stream_idx], 
